@@ -135,6 +135,16 @@ func (g *keyGen) bound() string {
 // burst: the read burst that follows every save.
 func burst(r *rand.Rand, g *keyGen, full bool, ops *[][]string) {
 	add := func(t ...string) { *ops = append(*ops, append([]string{"r", "w"}, t...)) }
+	if r.Intn(2) == 0 {
+		// iterators FIRST, before any lookup has brought evicted children back into memory:
+		// inclusive forward ranges ending exactly at stored keys (seed C19f), and single-key ranges
+		for i := 0; i < 3; i++ {
+			k := hx(g.key())
+			add("iter", "-", k, "1", "1")
+			add("iter", k, k, "1", "1")
+		}
+		add("iter", "-", "-", "0", "0")
+	}
 	add("size")
 	add("height")
 	if full {
